@@ -39,18 +39,43 @@ Lemma fmt_ok_nil {A} (f : fmt A) a : fmt_ok f -> wf f a = true -> dec f (enc f a
 Proof. intros H Hw. rewrite <- (app_nil_r (enc f a)). now apply H. Qed.
 
 (* ------------------------------------------------------------------ checked read: a short body is rejected *)
+Fixpoint split_n (n : nat) (l : list N) : option (list N * list N) :=
+  match n with
+  | O => Some ([], l)
+  | S n' => match l with
+            | [] => None
+            | x :: t => match split_n n' t with Some (a, r) => Some (x :: a, r) | None => None end
+            end
+  end.
 Definition take_e (n : N) (l : list N) : result (list N * list N) :=
-  if n <=? len l then Ok (firstn (N.to_nat n) l, skipn (N.to_nat n) l) else Err 1.
+  match split_n (N.to_nat n) l with Some p => Ok p | None => Err 1 end.
+
+Lemma split_n_app a b : split_n (length a) (a ++ b) = Some (a, b).
+Proof. induction a as [|x a IH]; [reflexivity|]. cbn [length app split_n]. now rewrite IH. Qed.
+Lemma split_n_inv : forall n l a r, split_n n l = Some (a, r) -> l = a ++ r /\ length a = n.
+Proof.
+  induction n as [|n IH]; intros l a r H; cbn [split_n] in H.
+  - inversion H; subst. now split.
+  - destruct l as [|x t]; [discriminate H|]. destruct (split_n n t) as [[a' r']|] eqn:E; [|discriminate H].
+    inversion H; subst. destruct (IH _ _ _ E) as [-> L]. split; [reflexivity|cbn [length]; now rewrite L].
+Qed.
+Lemma split_n_short : forall n l, (length l < n)%nat -> split_n n l = None.
+Proof.
+  induction n as [|n IH]; intros l H; [lia|]. destruct l as [|x t]; [reflexivity|]. cbn [split_n length] in *.
+  rewrite IH by lia. reflexivity.
+Qed.
 
 Lemma take_e_app a b : take_e (len a) (a ++ b) = Ok (a, b).
-Proof.
-  pose proof (take_app a b) as H. unfold take in H. unfold take_e.
-  destruct (len a <=? len (a ++ b)); [exact H | discriminate H].
-Qed.
+Proof. unfold take_e, len. now rewrite Nat2N.id, split_n_app. Qed.
 Lemma take_e_app_n n a b : len a = n -> take_e n (a ++ b) = Ok (a, b).
 Proof. intros <-. apply take_e_app. Qed.
 Lemma take_e_short n l : len l < n -> take_e n l = Err 1.
-Proof. intros H. unfold take_e. replace (n <=? len l) with false by lia. reflexivity. Qed.
+Proof. intros H. unfold take_e. rewrite split_n_short by (unfold len in H; lia). reflexivity. Qed.
+Lemma take_e_inv n l a r : take_e n l = Ok (a, r) -> l = a ++ r /\ len a = n.
+Proof.
+  unfold take_e. destruct (split_n (N.to_nat n) l) as [[a' r']|] eqn:E; [|discriminate]. intros H. inversion H; subst.
+  destruct (split_n_inv _ _ _ _ E) as [-> L]. split; [reflexivity|unfold len; lia].
+Qed.
 
 Lemma len_repeat {A} (x : A) n : len (repeat x n) = N.of_nat n.
 Proof. unfold len. now rewrite repeat_length. Qed.
